@@ -41,7 +41,7 @@ from ..mir import fmt
 from . import hashctx
 
 EXPLANATION = __doc__
-TECHNIQUE = "path-sensitive abstract interpretation over a linear shape domain (lengths, indices, slice windows) with Houdini-inferred loop invariants and Fourier-Motzkin entailment, ghost stream monitor; term equality of new() vs reset() evaluations; call-sequence and forwarding rules"
+TECHNIQUE = "path-sensitive abstract interpretation over a linear shape domain (lengths, indices, slice windows) with Houdini-inferred loop invariants and Fourier-Motzkin entailment, ghost stream monitor; term equality of new() vs reset() evaluations; call-sequence and forwarding rules; bounded shape evaluation (concrete offsets / lengths derived from the code's own length constants, symbolic contents, opaque recorded leaf calls) of the buffering loops; legacy Digest wrapper delegation rules"
 LEVEL = "proof"
 
 
